@@ -401,6 +401,7 @@ impl<C: Config> Engine<C> {
         &self,
         computing: &QueryComputing,
         target: &QueryID,
+        visited: &mut std::collections::HashSet<QueryID, FxBuildHasher>,
     ) -> bool {
         if computing.callee_info.callee_queries.contains_sync(target) {
             computing
@@ -410,20 +411,35 @@ impl<C: Config> Engine<C> {
             return true;
         }
 
-        let mut found = false;
+        // Collect the callees first: the running computations may themselves
+        // form a cycle that does not contain `target` (it has been detected
+        // already but its members have not finished unwinding), so every
+        // computation is visited at most once and no map is iterated while
+        // another one is being walked.
+        let mut callees = Vec::new();
 
-        // OPTIMIZE: this can be parallelized
         computing.callee_info.callee_queries.iter_sync(|k, _| {
-            let Some(state) =
-                self.computation_graph.computing.try_get_query_computing(k)
-            else {
-                return true;
-            };
-
-            found |= self.check_cyclic_internal(&state, target);
+            callees.push(*k);
 
             true
         });
+
+        let mut found = false;
+
+        // OPTIMIZE: this can be parallelized
+        for k in callees {
+            if !visited.insert(k) {
+                continue;
+            }
+
+            let Some(state) =
+                self.computation_graph.computing.try_get_query_computing(&k)
+            else {
+                continue;
+            };
+
+            found |= self.check_cyclic_internal(&state, target, visited);
+        }
 
         if found {
             computing
@@ -441,7 +457,11 @@ impl<C: Config> Engine<C> {
         running_state: &QueryComputing,
         target: &QueryID,
     ) -> bool {
-        self.check_cyclic_internal(running_state, target)
+        let mut visited = std::collections::HashSet::with_hasher(
+            FxBuildHasher::default(),
+        );
+
+        self.check_cyclic_internal(running_state, target, &mut visited)
     }
 
     pub(super) fn is_query_running_in_scc(
